@@ -80,9 +80,9 @@ def process_cases(sd, pcs):
         port = _free_port()
         cfgp = os.path.join(sd, "proc.yaml")
         with open(cfgp, "w") as fh:
-            fh.write("server:\n  port: %d\n  timeouts:\n    shutdown: 4\nbackends:\n  - name: \"b1\"\n    address: \"http://127.0.0.1:%d\"\n"
+            fh.write("server:\n  port: %d\n  timeouts:\n    shutdown: %d\nbackends:\n  - name: \"b1\"\n    address: \"http://127.0.0.1:%d\"\n"
                      "load_balancer:\n  strategy: \"round_robin\"\nhealth_checks:\n  active:\n    enabled: %s\n    interval: 2\n    timeout: 1\n    path: \"/healthz\"\n"
-                     "logging:\n  level: \"error\"\n  format: \"json\"\n" % (port, bport, "true" if c["probing"] else "false"))
+                     "logging:\n  level: \"error\"\n  format: \"json\"\n" % (port, c.get("tmo", 4), bport, "true" if c["probing"] else "false"))
         proc = subprocess.Popen([binp, "-config", cfgp], stdout=subprocess.DEVNULL, stderr=subprocess.DEVNULL)
         try:
             for _ in range(100):
